@@ -29,7 +29,12 @@ type c02Cfg struct {
 	Lazy bool `json:"lazy_feed,omitempty"`
 	// Edge: timestamps one millisecond before, at and after the interval bounds (and the bounds plus MAXOUTOFORDERNESS)
 	Edge bool `json:"boundary_timestamps,omitempty"`
+	// GapMs: half of the timestamp alphabet (and the sentinel) lies this much later in event time - a source silent
+	// for more than a day, all of it far behind the clock
+	GapMs int64 `json:"gap_ms,omitempty"`
 }
+
+func (c c02Cfg) sentinel() int64 { return 500000 + c.GapMs }
 
 func (c c02Cfg) scale() int64 {
 	if c.Scale > 1 {
@@ -68,6 +73,9 @@ func c02Configs(tier string) []c02Cfg {
 				out = append(out, c02Cfg{Kind: kind, OOOMs: ooo, LateMs: late, MaxL: maxL, Specials: true})
 				if kind == "session" {
 					out = append(out, c02Cfg{Kind: kind, OOOMs: ooo, LateMs: late, MaxL: maxL, Pusher: true})
+				}
+				if late <= 1000 && ooo == 2000 {
+					out = append(out, c02Cfg{Kind: kind, OOOMs: ooo, LateMs: late, MaxL: maxL, GapMs: 36 * 3600 * 1000})
 				}
 				if kind != "session" && late <= 1000 {
 					out = append(out, c02Cfg{Kind: kind, OOOMs: ooo, LateMs: late, MaxL: maxL, Edge: true})
@@ -138,6 +146,12 @@ func c02Symbols(c c02Cfg) []c02Sym {
 		}
 		return out
 	}
+	if c.GapMs > 0 {
+		for _, t := range []int64{10000, 11000, 12000, 9000, c.GapMs + 10000, c.GapMs + 12000, c.GapMs + 14500, c.GapMs + 9000} {
+			out = append(out, c02Sym{t, ""})
+		}
+		return out
+	}
 	if c.Edge {
 		for _, t := range []int64{10000, 11999, 12000, 12001, 13999, 14000, 9999, 20000} {
 			out = append(out, c02Sym{t, ""})
@@ -195,7 +209,7 @@ func c02Run(c c02Cfg, evs []c02Ev) detResult {
 			e.Emit(c02Row(ev))
 		}
 		// sentinel of another key far ahead: flushes every window that can still fire
-		e.Emit(Row{"id": 99, "k": "zz", "ts": int64(500000)})
+		e.Emit(Row{"id": 99, "k": "zz", "ts": c.sentinel()})
 	})
 }
 
@@ -223,7 +237,7 @@ func containsInt(a []int, x int) bool {
 // c02Check applies the monitors of the property to one eager execution.
 func c02Check(c c02Cfg, evs []c02Ev, ds []c02Del) (kind, what string) {
 	const negInf = int64(-1 << 62)
-	all := append(append([]c02Ev{}, evs...), c02Ev{ID: 99, TS: 500000})
+	all := append(append([]c02Ev{}, evs...), c02Ev{ID: 99, TS: c.sentinel()})
 	// (1) no early firing
 	maxAt := make([]int64, len(all)+1) // max normal ts among the first n emits
 	maxAt[0] = negInf
